@@ -826,6 +826,20 @@ pub fn suite_protocol(ctx: &Ctx, thorough: bool) {
         let r = guarded(|| GenericPurlBuilder::new(Shape { ty: "ty".into(), hook }, "n").with_qualifier("q", "").unwrap().build());
         let f = FIN.with(|c| c.get());
         if f != 1 { ctx.violate("C14.protocol", "the finishing hook runs exactly once per build()", json!({"hook": hook}), f.to_string(), "1".into()); }
+        // ... also when the name is empty BEFORE the hook: the hook runs (it may supply the name), its error is returned unchanged
+        CFG.with(|c| c.set((2, hook))); CONV.with(|c| c.set(0)); FIN.with(|c| c.set(0));
+        let r0 = guarded(|| GenericPurlBuilder::new(Shape { ty: "ty".into(), hook }, "").build());
+        let f0 = FIN.with(|c| c.get());
+        ctx.eval();
+        if f0 != 1 { ctx.violate("C14.protocol", "the finishing hook runs exactly once per build()", json!({"hook": hook, "name": ""}), f0.to_string(), "1".into()); }
+        if let Ok(r0) = &r0 {
+            let ok = match hook {
+                1 => *r0 == Err(ShapeErr::Hook),
+                7 => matches!(r0, Ok(p) if p.name() == "Hooked Name"),
+                _ => matches!(r0, Err(ShapeErr::Parse(m)) if m.contains("Name")),
+            };
+            if !ok { ctx.violate("C14.post", "what the hook writes is what the PURL reports, after the generic checks", json!({"hook": hook, "name": ""}), format!("{:?}", r0.as_ref().map(|p| p.to_string())), format!("hook {hook}")); }
+        }
         if let Ok(Ok(p)) = &r { check_valid(ctx, "builder", "build::<user shape>", p, false); }
     } }
     ctx.sample(json!({"string": "pkg:Ty/a?checksum=B:00", "hook": 5}));
